@@ -76,6 +76,9 @@ func genBatchCase(r *rand.Rand, maxCalls int) batchCase {
 	for i := 0; i < n; i++ {
 		c := batchCall{Kind: []string{"get", "put", "delete", "append", "increment"}[r.Intn(5)],
 			Row: string([]byte{byte('a' + r.Intn(26)), byte('0' + r.Intn(10))})}
+		if len(b.Bounds) > 0 && r.Intn(6) == 0 {
+			c.Row = b.Bounds[r.Intn(len(b.Bounds))] // exactly a region boundary
+		}
 		if !clean {
 			for k, l := 0, r.Intn(4); k < l; k++ {
 				o := batchOutcomes[r.Intn(len(batchOutcomes))]
